@@ -8,6 +8,7 @@ import BevySyncModel.Generated.TextureFormats
 import BevySyncModel.Generated.Http
 import BevySyncModel.Http
 import BevySyncModel.Slice.Comp
+import BevySyncModel.Slice.Panic
 /-! `bsmodel`: runs the executable model definitions on the cases the Rust harness prints, one line
 in, one line out (`ok <id>` / `MISMATCH <id> <what>`).  Lines starting with `#` are ignored.
 Only model files are imported (no proofs, no Mathlib), so this links as a native executable.
@@ -460,6 +461,35 @@ def handleHttp (st : DState) (toks : List String) : DState × Option String :=
   | "creq" :: id :: _ => (st, some s!"MISMATCH http: request without a response {id}")
   | _ => (st, some "MISMATCH parse http")
 
+/-! ### fault cases (C08): `fault <id> <guards 4 bits> <world a.b.c|-> <steps ;-separated> <ok|panic>` -/
+def parsePanicStep (t : String) : Option Panic.Step :=
+  match t.splitOn ":" with
+  | ["ad", e] => some (.appDespawn e.toNat!)
+  | ["ac", e, d] => some (.applyComp e.toNat! (d == "1"))
+  | ["am", d] => some (.applyMaterial (d == "1"))
+  | ["spc", c, p, ch] => some (.setParentC c.toNat! p.toNat! (ch == "1"))
+  | ["sph", c, p, ch] => some (.setParentH c.toNat! p.toNat! (ch == "1"))
+  | ["sp", e] => some (.spawnCmd e.toNat!)
+  | ["dc", e] => some (.despawnCmd e.toNat!)
+  | ["in"] => some .inert
+  | _ => none
+
+def checkFault (toks : List String) : String :=
+  match toks with
+  | [g, w, steps, obs] =>
+    let bit (i : Nat) : Bool := (g.toList.getD i '0') == '1'
+    let guards : Panic.Guards := ⟨bit 0, bit 1, bit 2, bit 3⟩
+    let world : List Nat := if w == "-" then [] else (w.splitOn ".").map String.toNat!
+    match (steps.splitOn ";").mapM parsePanicStep with
+    | some ss =>
+      match Panic.runAll guards world ss, obs with
+      | .ok _, "ok" => "ok"
+      | .error _, "panic" => "ok"
+      | .ok _, _ => "MISMATCH fault: the model's flush completes, the implementation panicked"
+      | .error _, _ => "MISMATCH fault: the model panics, the implementation did not"
+    | none => "MISMATCH parse fault steps"
+  | _ => "MISMATCH parse fault"
+
 def handle (st : DState) (line : String) : DState × Option String :=
   let line := line.trimAscii.toString
   if line.isEmpty || line.startsWith "#" then (st, none)
@@ -483,6 +513,7 @@ def handle (st : DState) (line : String) : DState × Option String :=
         | "msg" => checkMsg rest
         | "msgdec" => checkMsgDec rest
         | "reflect" => checkReflect rest
+        | "fault" => checkFault rest
         | _ => "MISMATCH unknown line kind"
       (st, some s!"{r} {id}")
     | _ => (st, some "MISMATCH parse ?")
